@@ -60,6 +60,7 @@ def step (d : DSt) : List String → DSt × List String
   | ["createPool", _sender, base, quote, fee, ratio, offset] =>
     match dec fee, dec ratio, dec offset with
     | some f, some r, some o =>
+      if !createPoolValid base quote f r o then (d, ["err"]) else
       let (s', id) := createPool d.s base quote f r o
       ({ d with s := s' }, [s!"ok id={id}"])
     | _, _, _ => (d, ["err"])
